@@ -373,6 +373,9 @@ pub struct TxLedger {
     pub max: u8,
     /// label carried (resolved) by the last emitted start/complete packet of this frame
     pub last: Option<Lab>,
+    /// the last emitted start/complete packet of this frame carried the broadcast label (an explicit re-use label
+    /// sent right after it stands for "broadcast": a receiver may resolve it so or refuse it)
+    pub after_bcast: bool,
     /// a start/complete packet has been emitted since the last reset/broadcast
     /// number of substituted re-use packets since the last full-label packet or configuration call
     pub run: u32,
@@ -380,10 +383,16 @@ pub struct TxLedger {
 
 impl TxLedger {
     pub fn new() -> TxLedger {
-        TxLedger { enabled: true, max: 0, last: None, run: 0 }
+        TxLedger { enabled: true, max: 0, last: None, after_bcast: false, run: 0 }
     }
     pub fn reset(&mut self) {
         self.last = None;
+        self.after_bcast = false;
+    }
+    /// an explicit re-use label right after a broadcast packet: the preceding start/complete packet carries the
+    /// broadcast label, so delivery under that label is right and a refusal ("no label remembered") is right too
+    pub fn reuse_after_broadcast(&self, l: &Lab) -> bool {
+        *l == Lab::ReUse && self.last.is_none() && self.after_bcast
     }
     pub fn cfg(&mut self, enabled: bool, max: u8) {
         self.enabled = enabled;
@@ -427,10 +436,12 @@ impl TxLedger {
             match wire_lt {
                 LT_6 | LT_3 => {
                     self.last = Some(*passed);
+                    self.after_bcast = false;
                     self.run = 0;
                 }
                 LT_BCAST => {
                     self.last = None;
+                    self.after_bcast = true;
                     self.run = 0;
                 }
                 _ => {} // explicit re-use: unchanged
